@@ -162,12 +162,12 @@ func runX(x *xcase, seed int64) (*xresult, error) {
 		case "readat":
 			b := make([]byte, x.n)
 			n, err := f.ReadAt(b, int64(x.off))
-			res.n, res.err, res.data = int64(n), err, b[:n]
+			res.n, res.err, res.data = int64(n), err, b[:clampLen(n, len(b))]
 		case "read":
 			f.Seek(int64(x.off), io.SeekStart)
 			b := make([]byte, x.n)
 			n, err := f.Read(b)
-			res.n, res.err, res.data = int64(n), err, b[:n]
+			res.n, res.err, res.data = int64(n), err, b[:clampLen(n, len(b))]
 		case "writeto":
 			f.Seek(int64(x.off), io.SeekStart)
 			var buf bytes.Buffer
@@ -299,4 +299,16 @@ func errIsStatus(err error, code uint32) bool {
 	}
 	var se *sftp.StatusError
 	return errors.As(err, &se) && se.Code == code
+}
+
+// clampLen: a count returned by the code under test may be wrong; the harness must survive it (the count itself is
+// reported and compared, so a count beyond the buffer is a mismatch and an oracle failure, not a harness crash)
+func clampLen(n, max int) int {
+	if n < 0 {
+		return 0
+	}
+	if n > max {
+		return max
+	}
+	return n
 }
